@@ -395,7 +395,7 @@ def rw_R15(rf, a, b):
     """`use crate::...;` inside a function body -> removed (single-file unit: all extracted items are in one flat module)"""
     toks, sg, out = rf.toks, _sig(rf.toks, a, b), []
     for k, i in enumerate(sg):
-        if toks[i].text == "use" and k + 1 < len(sg) and toks[sg[k + 1]].text == "crate":
+        if toks[i].text == "use" and k + 1 < len(sg) and toks[sg[k + 1]].text in ("crate", "chunked_transfer", "ascii", "httpdate"):
             j = k
             while toks[sg[j]].text != ";":
                 j += 1
@@ -468,7 +468,55 @@ def rw_R20(rf, a, b):
     return out
 
 
-REWRITES = {"R20": rw_R20, "R19": rw_R19, "R18": rw_R18, "R2b": rw_R2b, "R15": rw_R15, "R2": rw_R2, "R7": rw_R7, "R3": rw_R3, "R1": rw_R1, "R4": rw_R4, "R5": rw_R5, "R10": rw_R10, "R13": rw_R13, "R14": rw_R14}
+
+def rw_R21(rf, a, b):
+    """io::copy(r, w) -> verif_io_copy(r, w)   (vstd has no spec for io::copy; same-body wrapper)"""
+    toks, sg, out = rf.toks, _sig(rf.toks, a, b), []
+    for k, i in enumerate(sg):
+        if toks[i].text == "io" and _seq_at(toks, sg, k + 1, [":", ":", "copy", "("]):
+            out.append((Edit(i, sg[k + 3] + 1, "verif_io_copy", ("gen", "R21")), "R21 %s:%d io::copy -> verif_io_copy" % (rf.rel, toks[i].line)))
+    return out
+
+
+def rw_R8(rf, a, b):
+    """format!("{}", x) -> verif_fmt_display(x)   (core::fmt is outside Verus; same-body wrapper)"""
+    toks, sg, out = rf.toks, _sig(rf.toks, a, b), []
+    for k, i in enumerate(sg):
+        if toks[i].text == "format" and _seq_at(toks, sg, k + 1, ["!", "("]) and toks[sg[k + 3]].text == '"{}"' and toks[sg[k + 4]].text == ",":
+            out.append((Edit(i, sg[k + 4] + 1, "verif_fmt_display(", ("gen", "R8")), "R8 %s:%d format!(\"{}\", x) -> verif_fmt_display(x)" % (rf.rel, toks[i].line)))
+    return out
+
+
+def rw_R22(rf, a, b):
+    """&b"TEXT"[..] -> verif_lit_bytes("TEXT")   (Verus does not see the contents of byte-string literals; the extractor
+    checks that TEXT is plain ASCII without escapes, so that "TEXT".as_bytes() is the same value)"""
+    toks, sg, out = rf.toks, _sig(rf.toks, a, b), []
+    for k, i in enumerate(sg):
+        if toks[i].text == "&" and toks[sg[k + 1]].kind == "str" and toks[sg[k + 1]].text.startswith('b"') and _seq_at(toks, sg, k + 2, ["[", ".", ".", "]"]):
+            lit = toks[sg[k + 1]].text[2:-1]
+            if "\\" in lit or any(ord(c) >= 128 or ord(c) < 32 for c in lit):
+                raise Undecided("R22: byte-string literal with escapes or non-ASCII content at %s:%d" % (rf.rel, toks[i].line))
+            out.append((Edit(i, sg[k + 5] + 1, 'verif_lit_bytes("%s")' % lit, ("gen", "R22")), "R22 %s:%d &b\"%s\"[..] -> verif_lit_bytes(\"%s\")" % (rf.rel, toks[i].line, lit, lit)))
+    return out
+
+
+def rw_R3b(rf, a, b):
+    """(Box::new(X), ..) as first tuple component where a Box<dyn Read> is expected -> (verif_box_dyn_Read(Box::new(X)), ..):
+    the implicit unsizing coercion made explicit (only in raw_print's reader selection)"""
+    toks, sg, out = rf.toks, _sig(rf.toks, a, b), []
+    for k, i in enumerate(sg):
+        if toks[i].text == "(" and _seq_at(toks, sg, k + 1, ["Box", ":", ":", "new", "("]) and toks[sg[k - 1]].text in (">", "{", "(", ";"):
+            if toks[sg[k - 1]].text == ">" and toks[sg[k - 2]].text != "=":
+                continue
+            close = L.match_close(toks, sg[k + 5])
+            nxt = [j for j in sg if j > close][0]
+            if toks[nxt].text == ",":
+                out.append((Edit(sg[k + 1], sg[k + 1], "verif_box_dyn_Read(", ("gen", "R3b")), "R3b %s:%d implicit Box<R> -> Box<dyn Read> coercion made explicit" % (rf.rel, toks[i].line)))
+                out.append((Edit(close + 1, close + 1, ")", ("gen", "R3b")), None))
+    return out
+
+
+REWRITES = {"R21": rw_R21, "R8": rw_R8, "R22": rw_R22, "R3b": rw_R3b, "R20": rw_R20, "R19": rw_R19, "R18": rw_R18, "R2b": rw_R2b, "R15": rw_R15, "R2": rw_R2, "R7": rw_R7, "R3": rw_R3, "R1": rw_R1, "R4": rw_R4, "R5": rw_R5, "R10": rw_R10, "R13": rw_R13, "R14": rw_R14}
 
 
 # --------------------------------------------------------------------------------------------
